@@ -170,6 +170,7 @@ class C03Hook:
             self.ctx.fail('entity-getter-object-shared-with-mdib',
                           f'writing into mdib.entities.by_handle({ent.handle}) changed the MDIB: {lb.diff_snapshots(self.before_snap, after)[:3]}',
                           {'history': [], 'mdib': w.mdib_path, 'entity': ent.handle})
+        tx.undo_empty_appends()
 
     def after(self, w, script, info, history):
         ctx = self.ctx
